@@ -198,3 +198,79 @@ func mImageParams(R *rand.Rand, d, _ []byte) ([]byte, string) {
 	}
 	return out, "image-params"
 }
+
+// ---------------------------------------------------------------------------
+// the documented per-stream memory budget
+
+// docStreamBudget is the DOCUMENTED bound of limits.StreamBudget, written down
+// independently: 8 MiB plus 1024 bytes per raw byte, the variable part capped
+// at 256 MiB.
+func docStreamBudget(rawLen int64) int64 {
+	if rawLen < 0 {
+		rawLen = 0
+	}
+	add := int64(256 << 20)
+	if rawLen <= (256<<20)/1024 {
+		add = 1024 * rawLen
+	}
+	return 8<<20 + add
+}
+
+// streamAllocSlack allows for what is not filter working memory (read
+// buffers, the copy buffer of the drain).
+const streamAllocSlack = 16 << 20
+
+// progressiveJPEG: the header of a progressive one-component JPEG of the given
+// size, one DC scan, padded with zeros to total bytes; the decoder's
+// coefficient buffer follows the header's claim.
+func progressiveJPEG(width, height, total int) []byte {
+	b := &bytes.Buffer{}
+	b.Write([]byte{0xFF, 0xD8})
+	b.Write([]byte{0xFF, 0xDB, 0x00, 0x43, 0x00})
+	for i := 0; i < 64; i++ {
+		b.WriteByte(1)
+	}
+	b.Write([]byte{0xFF, 0xC2, 0x00, 0x0B, 0x08, byte(height >> 8), byte(height), byte(width >> 8), byte(width), 0x01, 0x01, 0x11, 0x00})
+	b.Write([]byte{0xFF, 0xC4, 0x00, 0x14, 0x00, 1})
+	for i := 0; i < 15; i++ {
+		b.WriteByte(0)
+	}
+	b.WriteByte(0)
+	b.Write([]byte{0xFF, 0xDA, 0x00, 0x08, 0x01, 0x01, 0x00, 0x00, 0x00, 0x00})
+	for b.Len() < total {
+		b.WriteByte(0)
+	}
+	return b.Bytes()
+}
+
+// budgetCorpus: header-claim bombs in streams whose raw length lies below,
+// around and above the knee of the budget (256 KiB), where the cap of the
+// variable part starts to matter.
+func budgetCorpus() []corpusEntry {
+	var res []corpusEntry
+	knee := 256 << 10
+	for _, n := range []int{100 << 10, knee - 1, knee + 1, 300 << 10, 512 << 10, 2 << 20} {
+		for _, side := range []int{9000, 20000} {
+			if side == 20000 && n != 512<<10 {
+				continue
+			}
+			j := progressiveJPEG(side, side, n)
+			obj := fmt.Sprintf("<< /Type /XObject /Subtype /Image /Width %d /Height %d /ColorSpace /DeviceGray /BitsPerComponent 8 /Filter /DCTDecode /Length %d >>\nstream\n%s\nendstream",
+				side, side, len(j), string(j))
+			res = append(res, corpusEntry{fmt.Sprintf("budget-dct-progressive-%d-raw%d", side, n), imageFile(obj)})
+		}
+	}
+	for _, n := range []int{knee + 1, 512 << 10} {
+		jb := jbig2Page(60000, 60000, 0)
+		jb = append(jb, make([]byte, n-len(jb))...)
+		res = append(res, corpusEntry{fmt.Sprintf("budget-jbig2-raw%d", n),
+			imageFile(imageObj(60000, 60000, "/JBIG2Decode", "", jb))})
+		body := bytes.Repeat([]byte{0xFF}, n)
+		res = append(res, corpusEntry{fmt.Sprintf("budget-ccitt-raw%d", n),
+			imageFile(imageObj(1<<20, 1<<20, "/CCITTFaxDecode", "<< /K -1 /Columns 1048576 /Rows 1048576 >>", body))})
+		// Flate + predictor with a huge row
+		res = append(res, corpusEntry{fmt.Sprintf("budget-lzw-predictor-raw%d", n),
+			imageFile(imageObj(65536, 65536, "/LZWDecode", "<< /Predictor 12 /Columns 65536 /Colors 4 /BitsPerComponent 16 >>", bytes.Repeat([]byte{0x80, 0x0B, 0x60}, n/3)))})
+	}
+	return res
+}
